@@ -27,6 +27,7 @@ func runLOC(c *Ctx) (obls []Obl) {
 	locAll(c, a)
 	locOrder(c, a)
 	locProbe(c, a)
+	locSkip(c, a)
 	return
 }
 
@@ -198,6 +199,70 @@ func locProbe(c *Ctx, a *flAgg) {
 	}
 }
 
+// locSkip: in the file loop of findRoots an iteration may end without
+// probing the disk only for a file that is already explained by a detected
+// root (remote GOROOT prefix, a remote GOPATH, a local module); every other
+// file is probed, whatever happened to the files before it.
+func locSkip(c *Ctx, a *flAgg) {
+	fn := c.MustFunc(a.obls, "LOC-probe", "stack", "Snapshot", "findRoots")
+	if fn == nil {
+		return
+	}
+	exprHome = fn.Pkg.Pkg
+	loops := outermostLoops(naturalLoops(fn))
+	if len(loops) != 1 {
+		a.und("LOC-probe", "findRoots/skip", "the file loop was not found", fn.Pos())
+		return
+	}
+	l := loops[0]
+	seg := &SPE{Fn: fn, Start: l.Header, MaxVisits: 2}
+	seg.Stop = func(from, to *ssa.BasicBlock) bool { return (to == l.Header && l.Body[from]) || (l.Body[from] && !l.Body[to]) }
+	seg.Explore()
+	n, okAll := 0, true
+	why := ""
+	for _, p := range seg.Paths {
+		if !(p.Term == "stop" && p.End == l.Header) {
+			continue
+		}
+		n++
+		probes := 0
+		for _, ev := range p.Events {
+			if ev.Kind != EvCall || ev.Val.Op != OpCall || ev.Val.Fn == nil {
+				continue
+			}
+			switch ev.Val.Fn.Name() {
+			case "isRootedIn", "isGoModule", "isFile":
+				probes++
+			}
+		}
+		if probes > 0 {
+			continue
+		}
+		explained := false
+		for _, lt := range p.Lits {
+			if !lt.Pol {
+				continue
+			}
+			at := lt.Atom
+			if at.calleeIs(stackPkg, "hasSrcPrefix") || at.calleeIs(stackPkg, "hasPrefix") || (at.calleeIs("strings", "HasPrefix") && strings.Contains(at.String(), "RemoteGOROOT")) {
+				explained = true
+			}
+		}
+		if !explained {
+			okAll = false
+			why = litsString(p)
+		}
+	}
+	switch {
+	case n == 0:
+		a.und("LOC-probe", "findRoots/skip", "no iteration of the file loop was explored", fn.Pos())
+	case okAll:
+		a.ok("LOC-probe", "findRoots/skip", "a file is left unprobed only when a detected root already explains it", fn.Pos())
+	default:
+		a.bad("LOC-probe", "findRoots/skip", "a file that no detected root explains can be skipped without looking at the disk ("+why+"): a root whose first file in sorted order is missing locally is then never detected although other files of it exist", fn.Pos())
+	}
+}
+
 // locAll: the location update reaches every goroutine, both stacks and every
 // frame unconditionally (no short-circuit that skips the rest after a miss).
 func locAll(c *Ctx, a *flAgg) {
@@ -351,6 +416,14 @@ func locBranches(c *Ctx, a *flAgg) {
 			continue
 		}
 		key := "updateLocations/" + kind
+		if kind == "goroot" {
+			// an undetected remote GOROOT is the empty string: "/src/" would then match every path under /src
+			if empty, have := p.lit("(" + goroot + " == \"\")"); have && !empty {
+				a.ok("LOC-branch", key+"/root-known", "the standard-library root is only matched when a remote GOROOT was detected", pos)
+			} else {
+				a.bad("LOC-branch", key+"/root-known", "the standard-library prefix is matched although no remote GOROOT may have been detected: with an empty root the prefix is \"/src/\" and every file under /src is classed as standard library and given a local path under the local GOROOT", pos)
+			}
+		}
 		cell := func(f string) *Expr { return p.Cells["&"+recv+"."+f] }
 		// RelSrcPath = remote[len(prefix):]
 		rel := cell("RelSrcPath")
